@@ -56,7 +56,12 @@ extern "C" LABound const * stub_bound(LABoundStore const *, LABoundRef r) { unsi
 extern "C" void stub_storeExplanation(LASolver * s, Simplex::Explanation * e) { s->explanation.sz = (int)e->size(); }
 // the model: any answer to the two shortcut tests (they depend on the bound values, which are not part of this claim), except that a
 // bound cannot be both
+#ifdef WITH_CONFLICTS
 extern "C" bool stub_trivUnsat(LRAModel const *, LVRef, LABoundRef) { return nondet_bool(); }
+#else
+// the direct-conflict path of Simplex::assertBound (it returns before any bookkeeping and allocates the explanation) is not explored
+extern "C" bool stub_trivUnsat(LRAModel const *, LVRef, LABoundRef) { return false; }
+#endif
 extern "C" bool stub_trivSat(LRAModel const *, LVRef, LABoundRef) { return nondet_bool(); }
 extern "C" void stub_pushBound(LRAModel *, LABoundRef) { n_pushBound++; }
 extern "C" LABoundRef stub_readBoundRef(LRAModel const *, LVRef) { return LABoundRef{0}; }
@@ -145,7 +150,9 @@ extern "C" void h_activation_history() {
     VASSERT(s.dec_limit.size() == (int)depth + 1 && n_model_push - n_model_pop == depth, "one backtrack point of the solver and of the model per open level");
     VASSERT(s.status == LASolver::SAT || (s.status == LASolver::UNSAT && saw_conflict), "status is SAT unless the last literal was rejected");
     VWITNESS("end");
+#ifdef WITH_CONFLICTS
     if (saw_conflict && popped) { VWITNESS("conflict-then-backtrack"); }
+#endif
     if (saw_trivial_sat && popped && depth == 0) { VWITNESS("implied-bound-asserted-and-popped"); }
     if (reasserted) { VWITNESS("asserted-again-after-a-pop"); }
     if (saw_repeat) { VWITNESS("literal-already-known"); }
